@@ -1,7 +1,12 @@
 """Bounded stand-ins per property: scripts run under /venv/bin/python against the real code."""
 P = "dulwich/pack.py"
 F19 = "dulwich/protocol.py"
+IX = "dulwich/index.py"
 BOUNDED = {
+    "C17": [
+        {"name": "validate_path@path_strings", "script": "enum_contract.py", "args": [IX, "validate_path", "path_strings"]},
+        {"name": "_is_ntfs_dotgit@element_strings", "script": "enum_contract.py", "args": [IX, "_is_ntfs_dotgit", "element_strings"]},
+    ],
     "C16": [
         {"name": "c16_backends", "script": "c16_backends.py", "args": []},
     ],
